@@ -404,6 +404,7 @@ impl Scenario for Skip {
         st.executions += 1;
         {
             let l = log.borrow();
+            st.note_schedule(trace_hash(&l.trace));
             st.add("fault.eintr", l.fired_eintr as u64);
             st.add("fault.pending", l.fired_pending as u64);
             st.add("fault.io_error", l.fired_err as u64);
@@ -737,6 +738,7 @@ impl Scenario for Ns {
         st.executions += 1;
         {
             let l = log.borrow();
+            st.note_schedule(trace_hash(&l.trace));
             st.add("fault.pending", l.fired_pending as u64);
         }
         st.add("op.skip", skips);
@@ -1030,6 +1032,7 @@ impl Scenario for Nest {
         st.executions += 1;
         {
             let l = log.borrow();
+            st.note_schedule(trace_hash(&l.trace));
             st.add("fault.pending", l.fired_pending as u64);
         }
         st.add("model.end_tags_judged", judged);
